@@ -125,3 +125,114 @@ def test_virtual_time_and_timeouts():
 
   sched, value = explore.run_under_scheduler(fn, [])
   assert value == (False, 5.0)
+
+
+# ---- signals --------------------------------------------------------------------------------------------------
+import ast
+
+
+class _Boom(BaseException):
+  pass
+
+
+def _signal_scenario(handler_raises, main_holds_lock=False):
+  """main starts a worker, then join()s it; one SIGINT may arrive anywhere.  The handler takes a lock the worker also
+  uses (so it has scheduling points of its own) -- unless main itself holds that lock -- and optionally raises."""
+  def fn(sched):
+    lock = threading.Lock()
+    log = []
+
+    def handler():
+      if main_holds_lock:
+        log.append('handler')
+      else:
+        with lock:
+          log.append('handler')
+      if handler_raises:
+        raise _Boom()
+
+    sched.signal_handler = handler
+    sched.signals_left = 1
+
+    def worker():
+      for i in range(3):
+        with lock:
+          runtime.yield_point('w%d' % i)
+          log.append('w%d' % i)
+
+    t = threading.Thread(target=worker, name='worker')
+    interrupted = False
+    alive_after = None
+    done_when_joined_again = None
+    try:
+      if main_holds_lock:
+        with lock:
+          runtime.yield_point('main-holds-lock')
+          log.append('main')
+      t.start()
+      t.join()
+    except _Boom:
+      interrupted = True
+      if t.ident is not None:
+        alive_after = t.is_alive()
+        t.join()            # what Test.execute() does after a KeyboardInterrupt
+        done_when_joined_again = 'w2' in log
+    sched.signals_left = 0
+    import time  # pylint: disable=g-import-not-at-top
+    for _ in range(200):       # let the worker finish (virtual sleeps); it cannot if main's release was cancelled
+      if t.ident is None or 'w2' in log:
+        break
+      time.sleep(0.001)
+    free = lock.acquire(False)
+    if free:
+      lock.release()
+    return {'interrupted': interrupted, 'alive_after': alive_after, 'done_when_joined_again': done_when_joined_again,
+            'handler_at': log.index('handler') if 'handler' in log else None, 'lock_free': free}
+  return fn
+
+
+def _sig_execute(handler_raises, main_holds_lock=False):
+  def execute(choices):
+    sched, value = explore.run_under_scheduler(_signal_scenario(handler_raises, main_holds_lock), choices,
+                                               focus_files=('test_engine.py',))
+    res = {'value': value, 'outcome_key': repr(value)[:300] if sched.failure is None else 'FAILURE %r' % (sched.failure,)}
+    return explore.Exec(list(choices), sched.points, res, sched.failure, sched.steps, len(sched.trace), sched.state_hashes)
+  return execute
+
+
+def _outcomes(r):
+  out = []
+  for k in r['outcomes']:
+    assert 'FAILURE' not in k[:12], k
+    v = ast.literal_eval(k)
+    if isinstance(v, str):       # (the explorer stores the repr of the key)
+      v = ast.literal_eval(v)
+    out.append(v)
+  return out
+
+
+def test_signal_handler_runs_while_main_is_blocked_in_join():
+  """The handler must be able to run (and finish) in the middle of the worker's activity, not only when join() is over."""
+  r = explore.explore('sig1', _sig_execute(False), lambda ex: [], 1, cap=5000)
+  assert not r['capped']
+  positions = {o['handler_at'] for o in _outcomes(r) if o['handler_at'] is not None}
+  assert len(positions) >= 3, positions      # handler observed before, between and after the worker's steps
+
+
+def test_interrupted_join_marks_the_thread_stopped_like_this_interpreter():
+  """CPython <= 3.12: a handler raising inside join() makes later join()/is_alive() report a running thread as done."""
+  r = explore.explore('sig2', _sig_execute(True), lambda ex: [], 1, cap=5000)
+  seen = {(o['alive_after'], o['done_when_joined_again']) for o in _outcomes(r) if o['interrupted'] and o['alive_after'] is not None}
+  assert seen, r['outcomes']
+  if runtime.JOIN_INTERRUPT_MARKS_STOPPED:
+    assert (False, False) in seen, seen      # reported dead, and the second join() returned, while it still had work to do
+  else:
+    assert all(done for _, done in seen), seen
+
+
+def test_a_raising_handler_never_cancels_a_lock_release():
+  """Signals are not delivered in front of a C-level release() nor at the LINE event that leaves a with-block."""
+  r = explore.explore('sig3', _sig_execute(True, main_holds_lock=True), lambda ex: [], 1, cap=5000)
+  outs = _outcomes(r)
+  assert any(o['interrupted'] for o in outs)
+  assert all(o['lock_free'] for o in outs), outs
